@@ -226,7 +226,7 @@ def replay(case):
     exploration of the same seed is reproduced by re-running that seed's search from fresh rule objects"""
     want = case.get("_core")
     try:
-        got = _replay_direct(case)
+        got = par.run_fresh(_replay_direct, case)  # own process: must not pollute the next level
     except Exception:  # noqa
         got = []
     if got and (want is None or any(c == want for c, _ in got)):
